@@ -1,9 +1,9 @@
 Require Extraction.
 From Coq Require Import ExtrOcamlBasic.
-From Cloak Require Import Model.HelloGrammar Model.Auth.
+From Cloak Require Import Model.HelloGrammar Model.Auth Model.SessionKey.
 Extraction Blacklist List String Int.
 Extraction "../ocaml/gen/c06.ml"
   pack unpack client_ts dh_x25519 pub_x25519
   x_client_payload x_server_process_tls x_server_process_ws x_server_reply_tls x_server_reply_ws
   x_client_finish_tls x_client_finish_ws
-  wf_client_hello locate_fields parse_server_flight b64_decode b64_encode.
+  wf_client_hello locate_fields parse_server_flight b64_decode b64_encode serve_keys table_after tbl_get.
